@@ -6,6 +6,7 @@ use crate::network::adapter::{
 };
 use crate::network::{RemoteAddr, Readiness, TransportConnect, TransportListen};
 use crate::util::encoding::{self, Decoder, MAX_ENCODED_SIZE};
+use crate::util::thread::{OTHER_THREAD_ERR};
 
 use mio::net::{TcpListener, TcpStream};
 use mio::event::{Source};
@@ -15,6 +16,7 @@ use socket2::{Socket};
 use std::net::{SocketAddr};
 use std::io::{self, ErrorKind, Read, Write};
 use std::cell::{RefCell};
+use std::sync::{Mutex};
 use std::mem::{forget, MaybeUninit};
 #[cfg(target_os = "windows")]
 use std::os::windows::io::{FromRawSocket, AsRawSocket};
@@ -59,6 +61,7 @@ pub(crate) struct RemoteResource {
     stream: TcpStream,
     decoder: RefCell<Decoder>,
     keepalive: Option<TcpKeepalive>,
+    send_lock: Mutex<()>, // a frame needs several writes: senders must not interleave them
 }
 
 // SAFETY:
@@ -68,7 +71,12 @@ unsafe impl Sync for RemoteResource {}
 
 impl RemoteResource {
     fn new(stream: TcpStream, keepalive: Option<TcpKeepalive>) -> Self {
-        Self { stream, decoder: RefCell::new(Decoder::default()), keepalive }
+        Self {
+            stream,
+            decoder: RefCell::new(Decoder::default()),
+            keepalive,
+            send_lock: Mutex::new(()),
+        }
     }
 }
 
@@ -130,6 +138,9 @@ impl Remote for RemoteResource {
     fn send(&self, data: &[u8]) -> SendStatus {
         let mut buf = [0; MAX_ENCODED_SIZE]; // used to avoid a heap allocation
         let encoded_size = encoding::encode_size(data, &mut buf);
+
+        // The whole frame must reach the stream without bytes of other frames in between.
+        let _sending = self.send_lock.lock().expect(OTHER_THREAD_ERR);
 
         let mut total_bytes_sent = 0;
         let total_bytes = encoded_size.len() + data.len();
